@@ -28,7 +28,8 @@ except as addresses that are no child's (`Closed` fails, and `load` raises `KeyE
 (children first, then the parent's `__setstate__`), both also stand for `cloudpickle`, and
 `fileLoad` is `Node.load` of the file back end (a second, shallow state cycle on live children).
 
-`Cfg` switches between the pinned behaviour and the proposed repairs (`fixes/C07-*.patch`).
+`Cfg` switches between the behaviour before and after the repairs of `fixes/C07-*.patch` (all but
+the last one are applied in /repo by now; the harness probes which variant it is talking to).
 Core Lean only.
 -/
 namespace PwVerif.Serial
@@ -146,9 +147,9 @@ structure Cfg where
   keepCache : Bool
   deriving DecidableEq, Repr
 
-/-- the tree as it is now -/
+/-- the tree before the repairs of `fixes/C07-*.patch` (as of /repo commit bba6c5f) -/
 def Cfg.pinned : Cfg := ⟨false, false, false, true, true, false⟩
-/-- with `fixes/C07-*.patch` applied -/
+/-- with `fixes/C07-*.patch` applied — the tree as it is since /repo commit 200d3d9 -/
 def Cfg.repaired : Cfg := ⟨true, true, false, false, false, true⟩
 
 /-- does `__setstate__` of a node of this kind push through input / output links? -/
